@@ -38,7 +38,8 @@ vars == <<store, plainOn, last>>
 Logon == "ego.logon"
 Root  == "ego.root"
 Fmts  == {"bcrypt", "sha", "plain"}
-NoUser == [on |-> FALSE, fmt |-> "", pw |-> "", perms |-> {}, ver |-> 0, cost |-> 0]
+NoUser == [on |-> FALSE, fmt |-> "", pw |-> "", perms |-> {}, ver |-> 0, cost |-> 0, from |-> ""]
+\* from: how the current credential came to be ("init" raw record | "upgrade" by Validate | "setuser"); bookkeeping only
 
 (* ---------------- idealised credential texts ---------------- *)
 Sha(s) == "sha256(" \o s \o ")"
@@ -59,6 +60,11 @@ CandOf(n, ck, lit) ==
     [] ck = "braced" -> Brace(store[n].pw)
     [] ck = "hashof" -> Sha(store[n].pw)                 \* the SHA-256 hex of the right password
 Lits == Pws \cup ExtraCands
+\* abstract identity of a Validate case (used in finding keys): the credential addressed and how the candidate relates to it
+Ctx(n) == IF store[n].on THEN store[n].fmt \o "/" \o store[n].from ELSE "absent"
+Rel(n, ck, c) == IF c = "" THEN "empty"
+                 ELSE IF store[n].on /\ c = store[n].pw THEN "right"
+                 ELSE IF ck = "lit" THEN (IF c \in Pws THEN "otherpw" ELSE "wrong") ELSE ck
 
 (* ---------------- the property, declaratively ---------------- *)
 Exists(n, sp)  == Resolves(sp) /\ store[n].on
@@ -80,7 +86,7 @@ BcMatch(c, u) ==
 HasPerm(u) == IF Impl = "nopermbc" /\ u.fmt = "bcrypt" THEN TRUE ELSE Permitted(u)
 
 Migrated(u, c) ==      \* HashPassword(pass) stored in place of the legacy text
-  [u EXCEPT !.fmt = "bcrypt", !.pw = (IF Impl = "rehash" THEN Sha(c) ELSE c), !.ver = @ + 1, !.cost = 12,
+  [u EXCEPT !.fmt = "bcrypt", !.pw = (IF Impl = "rehash" THEN Sha(c) ELSE c), !.ver = @ + 1, !.cost = 12, !.from = "upgrade",
             !.perms = (IF Impl = "dropperms" THEN {} ELSE @)]
 
 \* result of the call in the current state: [ok, st]
@@ -108,7 +114,7 @@ TypeOK ==
 
 InitUsers ==
   {NoUser} \cup
-  {[on |-> TRUE, fmt |-> f, pw |-> p, perms |-> ps, ver |-> 0, cost |-> c] :
+  {[on |-> TRUE, fmt |-> f, pw |-> p, perms |-> ps, ver |-> 0, cost |-> c, from |-> "init"] :
       f \in InitFmts, p \in Pws, ps \in PermSets, c \in InitCosts \cup {0}}
 InitUserOK(u) == ~u.on \/ ( /\ (u.fmt = "bcrypt") = (u.cost # 0)
                             /\ (u.fmt = "bcrypt" => u.pw \notin LongPws) )
@@ -127,7 +133,7 @@ Validate ==
          IN /\ store' = r.st
             /\ plainOn' = plainOn
             /\ last' = [call |-> [act |-> "Validate", n |-> n, sp |-> sp, ck |-> ck, cand |-> c,
-                                  ctx |-> (IF store[n].on THEN store[n].fmt ELSE "absent")],
+                                  ctx |-> Ctx(n), rel |-> Rel(n, ck, c)],
                         reply |-> r.ok]
 
 SetPlain ==
@@ -158,7 +164,7 @@ SetUser ==
     /\ store[n].ver < MaxVer
     /\ store' = [store EXCEPT ![n] = [on |-> TRUE, fmt |-> "bcrypt", pw |-> p,
                                       perms |-> (IF ps = {} THEN store[n].perms ELSE ps),
-                                      ver |-> store[n].ver + 1, cost |-> 12]]
+                                      ver |-> store[n].ver + 1, cost |-> 12, from |-> "setuser"]]
     /\ UNCHANGED plainOn
     /\ last' = [call |-> [act |-> "SetUser", n |-> n, sp |-> sp, pw |-> p, perms |-> ps], reply |-> "ok"]
 
@@ -194,7 +200,7 @@ UpgradeShape ==
              \/ /\ n = c.n
                 /\ store[n].on /\ store[n].fmt \in {"sha", "plain"}
                 /\ c.cand = store[n].pw
-                /\ store'[n] = [store[n] EXCEPT !.fmt = "bcrypt", !.ver = @ + 1, !.cost = 12]
+                /\ store'[n] = [store[n] EXCEPT !.fmt = "bcrypt", !.ver = @ + 1, !.cost = 12, !.from = "upgrade"]
         /\ ( /\ Exists(c.n, c.sp)
              /\ store[c.n].fmt \in {"sha", "plain"}
              /\ Matches(store[c.n], c.cand)
